@@ -1006,6 +1006,11 @@ class _Streamer(mcasm.Streamer):
         Appends data to the current block. This should be the only way that
         the section's data is modified.
         """
+        if not data:
+            # Nothing to record a line for (e.g. ".zero 0"); an entry would
+            # pin an otherwise empty block.
+            return
+
         offset = len(self._state.current_section.data)
         self._state.current_section.line_map[
             gtirb.Offset(
